@@ -57,20 +57,28 @@ def build(need_harness=True, need_bin=True):
 
 
 # ---------------------------------------------------------------------------------------------
-def _record_shard(mode, lines, extra):
-    """run the recorder over NDJSON lines; a dying recorder (abort, stack overflow) is data for the
-    case it died on, the rest of the shard is resumed"""
+def _record_shard(mode, lines, extra, per_line_timeout=2.0):
+    """run the recorder over NDJSON lines; a dying recorder (abort, stack overflow, exit) or one that stops
+    answering is data for the case it was working on; the rest of the shard is resumed"""
     out = []
     i = 0
     while i < len(lines):
-        p = subprocess.run([RECORDER, mode] + extra, input="\n".join(lines[i:]) + "\n", capture_output=True, text=True)
-        got = [l for l in p.stdout.split("\n") if l.strip()]
+        died = "died"
+        try:
+            p = subprocess.run([RECORDER, mode] + extra, input=("\n".join(lines[i:]) + "\n").encode(), capture_output=True,
+                               timeout=30 + per_line_timeout * (len(lines) - i))
+            stdout, rc, stderr = p.stdout, p.returncode, p.stderr
+        except subprocess.TimeoutExpired as e:
+            stdout, rc, stderr, died = e.stdout or b"", -1, b"", "hang"
+        got = [l for l in stdout.decode("utf-8", "replace").split("\n") if l.strip()]
+        if i + len(got) < len(lines) and got and not got[-1].endswith("}"):
+            got.pop()       # partial last line
         out.extend(got)
         i += len(got)
         if i < len(lines):
-            # died on lines[i]
             v = json.loads(lines[i])
-            v["obs"] = {"verdict": "crash", "ok": False, "rc": p.returncode, "stderr": p.stderr[-400:]}
+            v["obs"] = {"verdict": "crash", "ok": False, "rc": rc, "died": died, "exit": -9,
+                        "stderr": stderr.decode("utf-8", "replace")[-400:]}
             out.append(json.dumps(v))
             i += 1
     return out
